@@ -64,6 +64,8 @@ type c05Event struct {
 	Async bool   `json:"async,omitempty"`
 	ID    int    `json:"id,omitempty"` // revoke: identity of the cached certificate
 	Ord   []int  `json:"ord,omitempty"` // ocsp: the order in which the pass took the names (observed; a replay re-observes it)
+	Iss   int    `json:"iss,omitempty"`   // issuer: 0 both configured issuers, 1 the first only, 2 the second (backup) only; ext: 0 / 1 = saved under the first / second issuer's key
+	Chain bool   `json:"chain,omitempty"` // issuer: do all issuers fail for the name afterwards (what the model's SetIssuer gets; re-computed)
 }
 
 type c05Hist struct {
@@ -86,6 +88,11 @@ type c05Obs struct {
 	Jobs   []int      `json:"jobs"`
 	Err    bool       `json:"err"`
 	Rev    []int      `json:"revoked"` // cache entries whose OCSP status is Revoked
+	// per name, per issuer key (first, second): the bundle stored under that key; Store[n] is the most recently
+	// issued of them (highest serial)
+	Bundles [][]*c05Cert `json:"bundles"`
+
+	failovers int // certificates issued by the second issuer so far
 }
 
 // ---------------------------------------------------------------- goroutine identity
@@ -115,6 +122,7 @@ type c05Job struct {
 	name  int
 	renew bool
 	phase int // 0 before the lock, 1 holding it, 2 after releasing it
+	first string // kind and key of the first operation of an attempt under the lock
 }
 
 type c05Pass struct {
@@ -132,7 +140,9 @@ type c05World struct {
 	od    []bool
 	be    *doubles.MemBackend
 	ca    *doubles.CA
-	iss   *doubles.IssuerDouble
+	iss   *doubles.IssuerDouble // first issuer
+	issB  *doubles.IssuerDouble // second (backup) issuer: tried when the first fails
+	seq   int                   // certificates made so far during the history (NotBefore grows with it)
 	cache *certmagic.Cache
 	cfg   *certmagic.Config
 	cfgOD *certmagic.Config
@@ -144,7 +154,7 @@ type c05World struct {
 	pending  map[int64]*c05Arrival
 	jobOf    map[int64]*c05Job
 	jobs     [][]*c05Job // per name, in creation order
-	failing  []bool
+	failing  [2][]bool // per issuer, per name
 	draining bool
 	passOf   map[int64]*c05Pass
 	passes   map[int]*c05Pass
@@ -188,7 +198,19 @@ func (w *c05World) hook(op *doubles.Op) error {
 	w.mu.Lock()
 	inject := func() error {
 		if op.Kind == "IssueStart" {
-			if n := w.nameInKey(op.Key); n >= 0 && w.failing[n] {
+			which := 0
+			if strings.HasPrefix(op.Key, c05IssuerKeys[1]+":") {
+				which = 1
+			}
+			// every certificate made during a history is "issued later" than the ones before it, also
+			// at the resolution of NotBefore (seconds)
+			w.seq++
+			back := time.Since(w.nowRef) + time.Hour - time.Duration(w.seq)*2*time.Second
+			if w.idue {
+				back += 80*24*time.Hour - time.Hour
+			}
+			[]*doubles.IssuerDouble{w.iss, w.issB}[which].Backdate = back
+			if n := w.nameInKey(op.Key); n >= 0 && w.failing[which][n] {
 				if w.ocspG[gid] {
 					// the forced renewal of a revoked certificate runs inside the OCSP pass with
 					// retries; the issuer says "do not retry", so one failed attempt ends it
@@ -299,16 +321,14 @@ func c05Validity(now time.Time, due, expired bool) (time.Time, time.Time) {
 func c05NewWorld(h *c05Hist) *c05World {
 	w := &c05World{k: h.K, od: h.OD, be: doubles.NewMemBackend(), ca: doubles.NewCA("C05 harness CA"),
 		actors: map[int64]bool{}, pending: map[int64]*c05Arrival{}, jobOf: map[int64]*c05Job{},
-		jobs: make([][]*c05Job, h.K), failing: make([]bool, h.K), passOf: map[int64]*c05Pass{}, passes: map[int]*c05Pass{},
+		jobs: make([][]*c05Job, h.K), failing: [2][]bool{make([]bool, h.K), make([]bool, h.K)}, passOf: map[int64]*c05Pass{}, passes: map[int]*c05Pass{},
 		nowRef: time.Now(), idue: h.IDue, ocspG: map[int64]bool{}, hashOf: map[int]string{}}
 	for i := 0; i < h.K; i++ {
 		w.names = append(w.names, fmt.Sprintf("n%d.example", i))
 	}
 	w.ctx, w.stop = context.WithCancel(context.Background())
-	w.iss = &doubles.IssuerDouble{Key: "dbl", CA: w.ca, Log: w.be.Log, Inst: "i1", Backdate: time.Hour}
-	if h.IDue {
-		w.iss.Backdate = 80 * 24 * time.Hour
-	}
+	w.iss = &doubles.IssuerDouble{Key: c05IssuerKeys[0], CA: w.ca, Log: w.be.Log, Inst: "i1", Backdate: time.Hour}
+	w.issB = &doubles.IssuerDouble{Key: c05IssuerKeys[1], CA: w.ca, Log: w.be.Log, Inst: "i1", Backdate: time.Hour}
 	w.actors[c05GID()] = true
 	w.be.Log.Hook = w.hook
 	st := w.be.Handle("i1")
@@ -324,7 +344,7 @@ func c05NewWorld(h *c05Hist) *c05World {
 		},
 		Logger: cacheLogger,
 	})
-	tmpl := certmagic.Config{Storage: st, Issuers: []certmagic.Issuer{w.iss}, Logger: zap.NewNop(), DisableStorageCheck: true}
+	tmpl := certmagic.Config{Storage: st, Issuers: []certmagic.Issuer{w.iss, w.issB}, Logger: zap.NewNop(), DisableStorageCheck: true}
 	w.cfg = certmagic.New(w.cache, tmpl)
 	tmplOD := tmpl
 	tmplOD.OnDemand = &certmagic.OnDemandConfig{DecisionFunc: func(context.Context, string) error { return nil }}
@@ -340,19 +360,22 @@ func (w *c05World) certNames(c c05Cert) []string {
 	return out
 }
 
-func (w *c05World) putBundle(key int, chain, keyPEM []byte, names []string) {
+// the storage key prefixes of the two configured issuers (order = order of Config.Issuers)
+var c05IssuerKeys = [2]string{"dbl", "backup"}
+
+func (w *c05World) putBundle(key int, iss int, chain, keyPEM []byte, names []string) {
 	nm := w.names[key]
 	meta, _ := json.MarshalIndent(certmagic.CertificateResource{SANs: names, IssuerData: json.RawMessage(`{"harness":true}`)}, "", "\t")
-	w.be.Put(certmagic.StorageKeys.SitePrivateKey("dbl", nm), keyPEM)
-	w.be.Put(certmagic.StorageKeys.SiteCert("dbl", nm), chain)
-	w.be.Put(certmagic.StorageKeys.SiteMeta("dbl", nm), meta)
+	w.be.Put(certmagic.StorageKeys.SitePrivateKey(c05IssuerKeys[iss], nm), keyPEM)
+	w.be.Put(certmagic.StorageKeys.SiteCert(c05IssuerKeys[iss], nm), chain)
+	w.be.Put(certmagic.StorageKeys.SiteMeta(c05IssuerKeys[iss], nm), meta)
 }
 
 func (w *c05World) removeBundle(key int) {
 	nm := w.names[key]
-	w.be.Remove(certmagic.StorageKeys.SitePrivateKey("dbl", nm))
-	w.be.Remove(certmagic.StorageKeys.SiteCert("dbl", nm))
-	w.be.Remove(certmagic.StorageKeys.SiteMeta("dbl", nm))
+	w.be.Remove(certmagic.StorageKeys.SitePrivateKey(c05IssuerKeys[0], nm))
+	w.be.Remove(certmagic.StorageKeys.SiteCert(c05IssuerKeys[0], nm))
+	w.be.Remove(certmagic.StorageKeys.SiteMeta(c05IssuerKeys[0], nm))
 }
 
 // setup creates the initial certificates (serial = 101 + id), cache and storage.
@@ -376,7 +399,7 @@ func (w *c05World) setup(h *c05Hist) error {
 	for _, id := range h.Cache {
 		c := h.Certs[id]
 		if c.Man {
-			w.putBundle(c.Head, mk[id].chain, mk[id].key, w.certNames(c))
+			w.putBundle(c.Head, 0, mk[id].chain, mk[id].key, w.certNames(c))
 			cfg := w.cfg
 			if w.od[c.Head] {
 				cfg = w.cfgOD
@@ -394,7 +417,8 @@ func (w *c05World) setup(h *c05Hist) error {
 	for n, id := range h.Store {
 		if id >= 0 {
 			c := h.Certs[id]
-			w.putBundle(n, mk[id].chain, mk[id].key, w.certNames(c))
+			// the initial bundle lies under the first or the second issuer's key
+			w.putBundle(n, id%2, mk[id].chain, mk[id].key, w.certNames(c))
 		}
 	}
 	return nil
@@ -491,6 +515,11 @@ func (w *c05World) stepJob(n, k int) error {
 		switch a.op.Kind {
 		case "LockAcquired":
 			j.phase = 1
+			w.mu.Lock()
+			if nx := w.pending[j.gid]; nx != nil {
+				j.first = nx.op.Kind + " " + nx.op.Key
+			}
+			w.mu.Unlock()
 		case "Unlock":
 			j.phase = 2
 		}
@@ -500,8 +529,16 @@ func (w *c05World) stepJob(n, k int) error {
 		if a.op.Kind == "LockAcquired" || a.op.Kind == "Unlock" {
 			return nil
 		}
-		if j.phase == 1 && w.opErr(a.op.Seq) != "" {
-			return nil // an attempt under the lock failed; the job is now waiting to retry
+		// an attempt under the lock failed (with two issuers a single failing operation does not
+		// mean that: a bundle missing under one issuer's key, the first issuer refusing): the job
+		// is back at the first operation of an attempt after an operation that returned an error
+		w.mu.Lock()
+		next := w.pending[j.gid]
+		w.mu.Unlock()
+		if j.phase == 1 && next != nil {
+			if w.opErr(a.op.Seq) != "" && next.op.Kind+" "+next.op.Key == j.first {
+				return nil
+			}
 		}
 	}
 	return fmt.Errorf("job %d/%d: too many operations in one step", n, k)
@@ -531,8 +568,24 @@ func (w *c05World) enabled(e c05Event) bool {
 	defer w.mu.Unlock()
 	switch e.Kind {
 	case "scan":
-		_, ok := w.passes[e.P]
-		return !ok
+		if _, ok := w.passes[e.P]; ok {
+			return false
+		}
+		// two due managed certificates with the same first name in the cache: the scan queues both and the
+		// job manager keeps the first submission — which one that is (and so which certificate the job
+		// replaces in the end) depends on Go's map iteration order; the model scans in insertion order
+		if w.last != nil {
+			seen := map[int]bool{}
+			for _, c := range w.last.Cache {
+				if c.Man && c.Due && !w.od[c.Head] {
+					if seen[c.Head] {
+						return false
+					}
+					seen[c.Head] = true
+				}
+			}
+		}
+		return true
 	case "act":
 		_, ok := w.passes[e.P]
 		return ok
@@ -661,15 +714,24 @@ func (w *c05World) do(e c05Event) error {
 		for _, r := range e.Rest {
 			names = append(names, w.names[r])
 		}
-		nb, na := c05Validity(time.Now(), false, false)
-		chain, _, key, err := w.ca.Leaf(doubles.LeafOpts{Names: names, NotBefore: nb, NotAfter: na})
+		nb, na := c05Validity(w.nowRef, false, false)
+		w.mu.Lock()
+		w.seq++
+		shift := time.Duration(w.seq) * 2 * time.Second
+		w.mu.Unlock()
+		chain, _, key, err := w.ca.Leaf(doubles.LeafOpts{Names: names, NotBefore: nb.Add(shift), NotAfter: na.Add(shift)})
 		if err != nil {
 			return err
 		}
-		w.putBundle(e.N, chain, key, names)
+		w.putBundle(e.N, e.Iss%2, chain, key, names)
 	case "issuer":
 		w.mu.Lock()
-		w.failing[e.N] = e.Fail
+		if e.Iss == 0 || e.Iss == 1 {
+			w.failing[0][e.N] = e.Fail
+		}
+		if e.Iss == 0 || e.Iss == 2 {
+			w.failing[1][e.N] = e.Fail
+		}
 		w.mu.Unlock()
 	case "job":
 		if err := w.stepJob(e.N, e.K); err != nil {
@@ -793,10 +855,16 @@ func (w *c05World) observe() (*c05Obs, error) {
 	for n := 0; n < w.k; n++ {
 		// storage
 		nm := w.names[n]
-		crt, ok1 := w.be.Get(certmagic.StorageKeys.SiteCert("dbl", nm))
-		_, ok2 := w.be.Get(certmagic.StorageKeys.SitePrivateKey("dbl", nm))
-		_, ok3 := w.be.Get(certmagic.StorageKeys.SiteMeta("dbl", nm))
-		if ok1 && ok2 && ok3 {
+		// the bundle under each issuer's key; "the stored certificate" is the most recently issued one
+		var newest *c05Cert
+		per := make([]*c05Cert, 2)
+		for ik, issKey := range c05IssuerKeys {
+			crt, ok1 := w.be.Get(certmagic.StorageKeys.SiteCert(issKey, nm))
+			_, ok2 := w.be.Get(certmagic.StorageKeys.SitePrivateKey(issKey, nm))
+			_, ok3 := w.be.Get(certmagic.StorageKeys.SiteMeta(issKey, nm))
+			if !(ok1 && ok2 && ok3) {
+				continue
+			}
 			blk, _ := pem.Decode(crt)
 			if blk == nil {
 				return nil, fmt.Errorf("stored certificate of %s is not PEM", nm)
@@ -809,10 +877,14 @@ func (w *c05World) observe() (*c05Obs, error) {
 			if err != nil {
 				return nil, err
 			}
-			o.Store = append(o.Store, &d)
-		} else {
-			o.Store = append(o.Store, nil)
+			dd := d
+			per[ik] = &dd
+			if newest == nil || d.ID > newest.ID {
+				newest = &dd
+			}
 		}
+		o.Bundles = append(o.Bundles, per)
+		o.Store = append(o.Store, newest)
 		// name index
 		ids := []int{}
 		for _, h := range index[nm] {
@@ -858,18 +930,25 @@ func (w *c05World) observe() (*c05Obs, error) {
 	}
 	o.Issued = make([]int, w.k)
 	o.Failed = make([]int, w.k)
-	for _, c := range w.iss.CallsSnapshot() {
-		if len(c.Names) != 1 {
-			return nil, fmt.Errorf("Issue call for %v", c.Names)
-		}
-		n := w.nameIndex(c.Names[0])
-		if n < 0 {
-			return nil, fmt.Errorf("Issue call for unknown name %v", c.Names)
-		}
-		if c.Err == "" {
-			o.Issued[n]++
-		} else {
-			o.Failed[n]++
+	// successful Issue calls of either issuer; a failed *attempt* = a failed call of the last issuer of
+	// the chain (it is only asked when the ones before it have failed)
+	for ik, iss := range []*doubles.IssuerDouble{w.iss, w.issB} {
+		for _, c := range iss.CallsSnapshot() {
+			if len(c.Names) != 1 {
+				return nil, fmt.Errorf("Issue call for %v", c.Names)
+			}
+			n := w.nameIndex(c.Names[0])
+			if n < 0 {
+				return nil, fmt.Errorf("Issue call for unknown name %v", c.Names)
+			}
+			if c.Err == "" {
+				o.Issued[n]++
+				if ik == 1 {
+					o.failovers++
+				}
+			} else if ik == 1 {
+				o.Failed[n]++
+			}
 		}
 	}
 	w.mu.Lock()
@@ -1032,7 +1111,8 @@ func c05EncEvent(e *emit.Enc, ev c05Event) {
 			e.Int(r)
 		}
 	case "issuer":
-		e.Int(3).Int(ev.N).Bool(ev.Fail)
+		e.Int(3).Int(ev.N).Bool(ev.Chain) // the model's issuer is the whole chain
+
 	case "job":
 		e.Int(4).Int(ev.N).Int(ev.K)
 	case "manage":
@@ -1089,6 +1169,9 @@ func runC05History(h *c05Hist, choose c05Chooser) (res *c05Result, err error) {
 		}
 		if ev.Kind == "ocsp" {
 			ev.Ord = append([]int(nil), w.ocspOrd...)
+		}
+		if ev.Kind == "issuer" {
+			ev.Chain = w.failing[0][ev.N] && w.failing[1][ev.N]
 		}
 		res.hist.Events = append(res.hist.Events, *ev)
 		res.obs = append(res.obs, o)
@@ -1151,6 +1234,20 @@ func c05Features(f map[string]bool, ev c05Event, b, a *c05Obs) {
 	}
 	if ev.Kind == "ext" {
 		f["external_renewal"] = true
+		if b.Bundles[ev.N][1-ev.Iss%2] != nil {
+			f["external_renewal_under_other_issuer_key"] = true
+		}
+	}
+	if a.failovers > b.failovers {
+		f["issued_by_backup_issuer"] = true
+	}
+	for n := range a.Bundles {
+		if a.Bundles[n][0] != nil && a.Bundles[n][1] != nil {
+			f["bundles_under_both_issuers"] = true
+			if ids(a) != ids(b) {
+				f["cache_changed_with_bundles_under_both_issuers"] = true
+			}
+		}
 	}
 	if a.Err {
 		f["error_returned"] = true
@@ -1226,6 +1323,23 @@ func c05Emit(w *emit.Writer, class string, res *c05Result) {
 		c05EncObs(e, res.obs[i])
 	}
 	c05EncObs(e, res.final)
+	// the bundles under each issuer's key, for the initial and every later observation
+	all := append([]*c05Obs{res.obs0}, res.obs...)
+	e.Len(len(all))
+	for _, o := range all {
+		e.Len(len(o.Bundles))
+		for _, per := range o.Bundles {
+			e.Len(len(per))
+			for _, b := range per {
+				if b == nil {
+					e.Bool(false)
+				} else {
+					e.Bool(true)
+					c05EncCert(e, *b)
+				}
+			}
+		}
+	}
 	var feats []string
 	for k := range res.feats {
 		feats = append(feats, k)
@@ -1345,7 +1459,7 @@ func c05Random(r *rand.Rand, h *c05Hist, n int) c05Chooser {
 				sort.Ints(ps)
 				ev = c05Event{Kind: "act", P: ps[r.Intn(len(ps))]}
 			case x < 38:
-				ev = c05Event{Kind: "ext", N: name}
+				ev = c05Event{Kind: "ext", N: name, Iss: r.Intn(2)}
 				if r.Intn(3) == 0 {
 					other := r.Intn(h.K)
 					if other != name {
@@ -1353,7 +1467,7 @@ func c05Random(r *rand.Rand, h *c05Hist, n int) c05Chooser {
 					}
 				}
 			case x < 48:
-				ev = c05Event{Kind: "issuer", N: name, Fail: r.Intn(2) == 0}
+				ev = c05Event{Kind: "issuer", N: name, Fail: r.Intn(2) == 0, Iss: []int{0, 1, 1, 2}[r.Intn(4)]}
 			case x < 80:
 				// prefer a name that has a job
 				w.mu.Lock()
@@ -1444,6 +1558,14 @@ func c05Ev(kind string, a ...int) c05Event {
 		e.Rest = a[1:]
 	case "issuer":
 		e.N, e.Fail = a[0], a[1] == 1
+		if len(a) > 2 {
+			e.Iss = a[2] // 1 the first issuer only, 2 the backup only (default 0: both)
+		}
+	case "extb": // another instance saves under the second issuer's key
+		e.Kind = "ext"
+		e.N = a[0]
+		e.Rest = a[1:]
+		e.Iss = 1
 	case "job":
 		e.N, e.K = a[0], 0
 		if len(a) > 1 {
@@ -1594,6 +1716,45 @@ func c05Scenarios() []c05Scenario {
 		c05Scenario{"manage-beside-unmanaged-async", c05Build([]c05NameInit{{unman: true}, {unman: true, stored: 3}}, false),
 			c05Cat(one(c05Ev("manage", 0, 1)), one(c05Ev("manage", 1, 1)), drain(0), drain(1), pass(0))},
 	)
+	// --- two issuers: fail-over to the backup issuer leaves bundles under both issuers' keys; the most recently
+	// issued one is the stored certificate (loaded, adopted, compared by the scan, renewed from)
+	for _, age := range []int{2, 3} {
+		for _, multi := range []bool{false, true} {
+			for _, idue := range []bool{false, true} {
+				base := []c05NameInit{{cached: age, stored: 1, multi: multi}, {cached: 1, stored: 1}, {cached: 2, stored: 1, od: true}}
+				mk := func() *c05Hist { return c05Build(base, idue) }
+				tag := fmt.Sprintf("age%d", age)
+				failA := one(c05Ev("issuer", 0, 1, 1))
+				out = append(out,
+					// renewal falls over to the backup issuer; later passes must find the name renewed
+					c05Scenario{"failover-renewal/" + tag, mk(), c05Cat(failA, pass(0), drain(0), pass(1), drain(0), pass(2), one(c05Ev("manage", 0, 0)), pass(3))},
+					// ... the first issuer recovers: the next renewal (idue) goes to it again, over the backup's bundle
+					c05Scenario{"failover-then-recovery/" + tag, mk(), c05Cat(failA, pass(0), drain(0), one(c05Ev("issuer", 0, 0, 1)), pass(1), drain(0), pass(2), drain(0), pass(3))},
+					// another instance renewed through the other issuer: adopt, no Issue
+					c05Scenario{"external-under-other-issuer/" + tag, mk(), c05Cat(one(c05Ev("extb", 0)), pass(0), drain(0), one(c05Ev("ext", 0)), pass(1), drain(0), pass(2))},
+					c05Scenario{"external-under-other-issuer-while-job-queued/" + tag, mk(), c05Cat(pass(0), one(c05Ev("extb", 0)), drain(0), pass(1), drain(0))},
+					c05Scenario{"external-under-other-issuer-between-scan-and-act/" + tag, mk(), c05Cat(one(c05Ev("scan", 0)), one(c05Ev("extb", 0)), one(c05Ev("act", 0)), drain(0), pass(1))},
+					// both fail, then only the backup works
+					c05Scenario{"failover-after-failures/" + tag, mk(), c05Cat(one(c05Ev("issuer", 0, 1)), pass(0), c05Rep(c05Ev("job", 0), 3), one(c05Ev("issuer", 0, 0, 2)), drain(0), pass(1), drain(0), pass(2))},
+					// only the backup fails: nothing special happens
+					c05Scenario{"backup-fails-only/" + tag, mk(), c05Cat(one(c05Ev("issuer", 0, 1, 2)), pass(0), drain(0), pass(1))},
+				)
+			}
+		}
+	}
+	// managing a name (a "second instance" in effect: nothing cached) whose bundles lie under both issuers
+	for _, async := range []int{0, 1} {
+		for _, idue := range []bool{false, true} {
+			h := c05Build([]c05NameInit{{stored: 3}, {cached: 1, stored: 1}}, idue)
+			out = append(out, c05Scenario{"manage-with-bundles-under-both-issuers", h,
+				c05Cat(one(c05Ev("extb", 0)), one(c05Ev("ext", 0)), one(c05Ev("extb", 0)), one(c05Ev("manage", 0, async)), drain(0), pass(0), drain(0), pass(1))})
+			h2 := c05Build([]c05NameInit{{stored: 3}, {cached: 1, stored: 1}}, idue)
+			out = append(out, c05Scenario{"manage-obtain-failover", c05Build([]c05NameInit{{}, {cached: 1, stored: 1}}, idue),
+				c05Cat(one(c05Ev("issuer", 0, 1, 1)), one(c05Ev("manage", 0, async)), drain(0), pass(0), drain(0), one(c05Ev("manage", 0, async)), pass(1))})
+			out = append(out, c05Scenario{"manage-renew-failover", h2,
+				c05Cat(one(c05Ev("issuer", 0, 1, 1)), one(c05Ev("manage", 0, async)), drain(0), pass(0), drain(0), pass(1))})
+		}
+	}
 	// --- revocation: "keeps being served as long as it has not been revoked"
 	cachedID := func(h *c05Hist, head int) int {
 		for _, id := range h.Cache {
@@ -1669,6 +1830,7 @@ func runC05(tier string, seed int64, outdir string, replay string) error {
 	w.Meta.Rule = "distinct histories in which the cache changed, the issuer was called (successfully or not) or a background job was submitted"
 	w.Meta.Notes = []string{
 		"lock-step: background jobs are released one storage/issuer operation at a time; a pass stops between scan and act at its first Info log entry",
+		"two issuers (keys dbl, backup) on one CA: issuer events switch the first, the backup or both; the model's issuer is the chain (failed attempt = failed call of the backup); NotBefore grows by 2 s with every certificate made, so 'latest NotBefore' = 'most recently issued'; Store = most recently issued of the bundles under both keys, checked against Issuers.newest",
 		"IssuerDouble does not implement RenewalInfoGetter: ARI paths are inert; harness certificates carry no OCSP responder: nothing is stapled; a Revoked status is set on a cache entry through the hook VerifMaintainMarkRevoked, the OCSP pass is the real updateOCSPStaples",
 		"a forced renewal (revocation) inside the OCSP pass is ended after one failed attempt by an ErrNoRetry answer of the issuer double; OCSP passes only with an issuer whose certificates are not already due",
 	}
